@@ -142,6 +142,17 @@ func c06FrontEnds(lg *zap.Logger, level string, msgs ...string) (map[string]func
 	fe := map[string]func(){}
 	fe["Logger.Log"] = func() { lg.Log(lvl, c06Msg) }
 	fe["Logger.Check+Write"] = func() { lg.Check(lvl, c06Msg).Write() }
+	// fields from a scratch slice the caller recycles when it regains control (in a deferred function, since the
+	// call may not return): what an observing core recorded of the terminal entry stays what was logged
+	fe["Logger.Log(scratch fields)"] = func() {
+		fs := []zap.Field{zap.Int("scratch", 1), zap.String("s", "v")}
+		defer func() {
+			for i := range fs {
+				fs[i] = zap.String("recycled", "scratch slice")
+			}
+		}()
+		lg.Log(lvl, c06Msg, fs...)
+	}
 	fe["Sugar.Log"] = func() { sg.Log(lvl, c06Msg) }
 	fe["Sugar.Logf"] = func() { sg.Logf(lvl, "%s", c06Msg) }
 	fe["Sugar.Logw"] = func() { sg.Logw(lvl, c06Msg, "k", 1) }
@@ -505,6 +516,17 @@ func c06RunInProcess(t interface{ Fatalf(string, ...any) }, cfg c06Config) {
 	nEarlier := cfg.Earlier // same level as the final entry: enabled exactly when it is
 	if otherHook.n != 0 {
 		t.Fatalf("%s: a terminal hook configured on ANOTHER logger of the family ran %d times", desc, otherHook.n)
+	}
+	if cfg.Front == "Logger.Log(scratch fields)" && logs != nil && c06Enabled(cfg) {
+		if es := logs.All(); len(es) > 0 {
+			got := ""
+			for _, f := range es[len(es)-1].Context {
+				got += f.Key + " "
+			}
+			if !strings.Contains(got, "scratch s ") || strings.Contains(got, "recycled") {
+				t.Fatalf("%s: the observing core's record of the terminal entry changed when the caller recycled its field slice: fields now %q", desc, got)
+			}
+		}
 	}
 	if c06Enabled(cfg) && cfg.Fault == "writeerr" {
 		// the sink rejects every write: the entry cannot be there, but the write
